@@ -860,6 +860,24 @@ pub fn generate(r: &mut Rng, _opts: &BTreeMap<String, String>, sess: &mut Sessio
         exec_line(sess, "crdt.state l", out);
         exec_line(sess, "crdt.changes l -", out);
     }
+    // a late fork whose actor sorts BEFORE every existing actor opens its first transaction and rolls it
+    // back (actor inserted into and removed from the actor table of a long history), then reads at past heads
+    if all_changes.len() >= 8 && r.chance(1, 2) {
+        exec_line(sess, &format!("crdt.fork r0 lf 01{:02x}", r.below(200)), out);
+        out.count("late_fork_rollback");
+        let mut ko = known_objs.clone();
+        let mut scratch = vec![];
+        for _ in 0..r.range(1, 3) {
+            let res = exec_line(sess, &format!("crdt.put lf _ m{} {}", hex::encode(KEYS[r.below(KEYS.len() as u64) as usize].as_bytes()), rand_scalar(r)), out);
+            let _ = res;
+        }
+        exec_line(sess, "crdt.rollback lf", out);
+        let own: Vec<String> = sess.crdt.replicas.get_mut("lf").unwrap().get_changes(&[]).iter().map(|c| hex::encode(c.hash().0)).collect();
+        for _ in 0..5 { if own.is_empty() { break; } let h = own[r.below(own.len() as u64) as usize].clone(); exec_line(sess, &format!("crdt.state_at lf {}", h), out); }
+        // and it keeps working: a committed change after the rollback, read back at its own past
+        local_tx(r, sess, out, "lf", &mut ko, &mut scratch);
+        for _ in 0..3 { if own.is_empty() { break; } let h = own[r.below(own.len() as u64) as usize].clone(); exec_line(sess, &format!("crdt.state_at lf {}", h), out); }
+    }
     // historical reads at a few head sets taken from r0's own history (single hashes and pairs)
     let own: Vec<String> = sess.crdt.replicas.get_mut("r0").unwrap().get_changes(&[]).iter().map(|c| hex::encode(c.hash().0)).collect();
     if !own.is_empty() {
